@@ -19,12 +19,14 @@ RULE = ('images of every CAMx binary format (uamiv AVERAGE/EMISSIONS/INSTANT/'
         'AIRQUALITY, lateral boundary, land use old/new style, wind '
         'staggered/unstaggered/no flag, temperature, height/pressure, '
         'humidity, vertical diffusivity, generic one-3D, cloud/rain 3 and 5 '
-        'variables) with nx != ny != nz, 1-4 hourly steps from any date '
+        'variables) with nx != ny != nz, 1-4 steps of 1-24 h (uamiv/boundary '
+        'also 30-100 h) from any date '
         '1970-2069 (stratified over midnight/year/leap/century edges), '
         'float32 payloads incl. denormals, -0.0, +-max; each image is read '
         'by the library (direction B) and, when read correctly, written '
         'back by the library writer and decoded by the independent decoder '
-        '(direction A). non-trivial = the image has >= 2 cells per field; '
+        '(direction A, also from hand-built sources; boundary-definition '
+        'records judged against the CAMx convention). non-trivial = the image has >= 2 cells per field; '
         'distinct = digest of the image spec.')
 ASSUMPTIONS = [
     'the reference codecs were written from the CAMx User\'s Guide record '
